@@ -210,7 +210,10 @@ fn main() {
 
     let level = (prop.level)(tier);
     // vacuity gates
-    if let Err(e) = (prop.gate)(&merged, tier) {
+    let any_new: u64 = merged.viol_by_site.values().sum();
+    if any_new > 0 {
+        // a violation is reported as such; coverage gates only guard a "holds" verdict
+    } else if let Err(e) = (prop.gate)(&merged, tier) {
         eprintln!("machinery: vacuity gate failed for {id}: {e}");
         std::process::exit(2);
     }
